@@ -399,6 +399,13 @@ def Reader.session : Reader → List Nat → List (List Row) × Bool × Reader
       let rec_ := Reader.session (r.readRows m).2.2 ms
       ((r.readRows m).1 :: rec_.1, rec_.2)
 
+/-- the hidden payload: row `j` of input `i` is tagged `(i, j)` -/
+def tagList (i : Nat) (ks : List Int) : List Row :=
+  (List.range ks.length).map (fun j => { key := ks.getD j 0, inp := i, seq := j })
+
+def tagInputs (keys : List (List Int)) : List (List Row) :=
+  (List.range keys.length).map (fun i => tagList i (keys.getD i []))
+
 /-! ## dedupe (dedupe.go:68-107) -/
 
 /-- dedupe.go:92-99: partition of one batch into `uniq` and `dupe`, `lastRow` carried -/
